@@ -101,9 +101,9 @@ def classify(scn, iout):
         fid = None
         if got[0] == "mismatch" and feat["ndim_disagree"] and all(c in su.NDIM_BY_FIRST_UPDATE for c, _ in feat["ndim_disagree"]):
             fid = "C02-ndim-first-update"
-        elif got[0] == "exc" and got[1] in ("TypeError", "ValueError") and feat["bcast_root_shifted"]:
+        elif got[0] == "exc" and got[1] in ("TypeError", "ValueError") and feat["bcast_root_shifted"] and not su.detect_variant()["D9"]:
             fid = "C02-subgroup-bcast-root"
-        elif got[0] in ("ok", "exc") and feat["dict_unequal_keys"] and not feat["ndim_disagree"] and not feat["bcast_root_shifted"]:
+        elif got[0] in ("ok", "exc") and feat["dict_unequal_keys"] and not feat["ndim_disagree"] and (not feat["bcast_root_shifted"] or su.detect_variant()["D9"]):
             fid = "C02-dict-unequal-keys"
         bad.append((fid, f"group rank {j}: toolkit.{scn['entry']} gave {got!r:.220}; local merge gives {want!r:.220}"))
         break
@@ -214,6 +214,9 @@ def witness_stream(ctx):
                                                  "disagreement": d, "broken": f"tie:witness:{thm}"})
         bad = classify(scn, iout)
         s.count("still-fails" if bad else "no-longer-fails")
+        if not bad:
+            ctx.notes.append(f"stale finding {fid}: the witness of {thm} no longer fails on this tree (repaired); "
+                             f"the theorem remains a statement about the V_code variant of the model")
         for f2, desc in bad[:1]:
             ctx.violation("failing-input", thm, {"check": "sync-equals-local-merge", "scenario": su.jsonable(scn),
                                                  "observed": desc, "theorem": thm,
@@ -222,6 +225,8 @@ def witness_stream(ctx):
 
 def run(ctx):
     su.quiet()
+    ctx.notes.append(su.variant_note())
+    ctx.oblige("tie:variant-decided (" + su.variant_note() + ")", True)
     uninitialised_stream(ctx)
     tie_stream(ctx, ctx.n(700, 6000))
     witness_stream(ctx)
